@@ -8,6 +8,7 @@ import ChythonModel.Proofs.C02Writer
 import ChythonModel.Proofs.C02Closures
 import ChythonModel.Proofs.C02HeapBound
 import ChythonModel.Proofs.C02ReadOk
+import ChythonModel.Proofs.C02Final
 /-!
 # C02 — SMILES write then read is lossless; canonical strings never collide
 
@@ -305,6 +306,143 @@ example : NoAromaticHalogen ⟨[(1, { z := 6 }), (2, { z := 6 }), (3, { z := 6 }
     · split at hat
       · cases hat; simp at hz
       · simp at hat
+
+/-! ## 8. the DFS covers every atom and every bond exactly once — for ALL well-formed molecules
+
+Hypotheses, all decidable: `m.WF = true` (`Mol.WF`: atom ids unique, adjacency keyed by exactly the atoms, neighbour lists
+duplicate-free, no self loops, symmetric with the same bond on both sides).  Everything else — neighbour orderings
+(`env.front`, `env.setOrders`), weights, random draws, options — is universally quantified; the theorems are about the
+results of the very functions the driver runs (`dfsRun`, `flatten`, `smilesRounds`, `joinRounds`, `readToks`).
+The closure-number heap (≤ 99 simultaneously open closures, otherwise exactly `IndexError`) is `heap_exhaustion_exact`;
+here it only shows as the hypothesis that the write succeeded. -/
+
+/-- **dfs_covers_component**: run the writer's DFS stack machine (`dfsRun`, the definition the driver executes) from the
+    initial state `traverse` builds — start atom `start`, its neighbours in ANY order `ch`, depth limit `S.length` where
+    `S` (`atoms_set`) is any neighbour-closed set of at most `|atoms|` ids containing `start`.  If it returns `r` (any fuel) then
+    * the visited atoms are duplicate-free, contain `start`, and are closed under neighbours (the whole component;
+      the depth limit of the source is never the reason to stop);
+    * flattening (`flatten`, fuel `|atoms| + 1`) lists exactly the visited atoms, in discovery order, each once, and its
+      bond tokens are exactly the DFS tree bonds, each once — the fuel of `flat` never truncates;
+    * every bond `a–b` of a visited atom is recorded, and recorded exactly once: as the tree bond `(a,b)` or `(b,a)` or as
+      ONE closure record pair `(a,b,k)`/`(b,a,k)` — never two of these, no tree bond twice (also not reversed), one cycle
+      id per bond, every cycle id on exactly two records, which sit on the two different end atoms. -/
+theorem dfs_covers_component (m : Mol) (env : Env) (opts : Opts) (groups : List (Int × Int)) (seen : List (Nat × Int))
+    (S : List Nat) (start c0 fuel : Nat) (ch : List Nat) (dr : List (Nat × Nat)) (r : Dfs)
+    (hwf : m.WF = true) (hS : ∀ a ∈ S, ∀ b ∈ nk m a, b ∈ S) (hSN : S.length ≤ m.atoms.length) (hstart : start ∈ S)
+    (hch : (nk m start).Perm ch)
+    (h : dfsRun m env opts groups seen fuel
+      { stack := [{ parent := start, depth := S.length, children := ch }], visited := [(start, [])],
+        cycle := c0, draws := dr } = .ok r) :
+    ((vis r).Nodup ∧ start ∈ vis r ∧ ∀ a ∈ vis r, ∀ b ∈ nk m a, b ∈ vis r) ∧
+    (fatoms (flatten r.edges (m.atoms.length + 1) start) = vis r ∧
+      (fbonds (flatten r.edges (m.atoms.length + 1) start)).Perm (treeP r.edges)) ∧
+    (∀ a ∈ vis r, ∀ b, b ∈ nk m a ↔
+        ((a, b) ∈ treeP r.edges ∨ (b, a) ∈ treeP r.edges ∨ ∃ k, (a, b, k) ∈ cycT r.tokens)) ∧
+    (((treeP r.edges).map fun p => undirected p.1 p.2).Nodup ∧
+      (∀ p ∈ treeP r.edges, ∀ t ∈ cycT r.tokens, undirected p.1 p.2 ≠ undirected t.1 t.2.1) ∧
+      (cycT r.tokens).Nodup ∧
+      (∀ a b k k', (a, b, k) ∈ cycT r.tokens → (a, b, k') ∈ cycT r.tokens → k = k') ∧
+      (∀ a b k, (a, b, k) ∈ cycT r.tokens → (b, a, k) ∈ cycT r.tokens ∧ a ≠ b) ∧
+      (∀ k, ((cycT r.tokens).map (·.2.2)).count k = 0 ∨ ((cycT r.tokens).map (·.2.2)).count k = 2)) := by
+  have hd := dfsRun_result hwf hS hSN hstart hch h
+  have G := hd.gfacts hwf
+  have hsym : ∀ a b, b ∈ nk m a → a ∈ nk m b := fun a b hb => ((wf_nbrs hwf a).2 b hb).2.2
+  exact ⟨⟨G.vNodup, hd.inv.startVis, hd.closed⟩, ⟨hd.atoms, hd.bonds⟩, fun a ha b => G.mem_bond_iff hsym a b ha,
+    G.tree_undirected_nodup, G.tree_closure_disjoint, G.cNodup, G.cPair,
+    fun a b k hk => ⟨(G.cMem a b k hk).1, (G.cMem a b k hk).2.1⟩, G.ids_count⟩
+
+/-- **dfs_fuel_independent**: the result of `dfsRun` does not depend on the fuel once it is reached, and on a well-formed
+    molecule neither the DFS nor the BFS of `traverse` can run out of the fuel `traverse` gives them
+    (`2·(Σ degrees + |atoms|) + 2` steps, `|atoms| + 1` pops): the fuel is a termination device, not an assumption. -/
+theorem dfs_fuel_independent (m : Mol) (env : Env) (opts : Opts) (groups : List (Int × Int)) (seen : List (Nat × Int)) :
+    (∀ fuel k s r, dfsRun m env opts groups seen fuel s = .ok r → dfsRun m env opts groups seen (fuel + k) s = .ok r) ∧
+    (m.WF = true → ∀ fuel s, dfsPotential m s ≤ fuel → dfsRun m env opts groups seen fuel s ≠ .error .fuel) ∧
+    (m.WF = true → ∀ g, traverse m env opts groups g ≠ .error .fuel) :=
+  ⟨fun fuel k s r h => dfsRun_fuel_mono m env opts groups seen fuel k s r h, fun hwf fuel s hp => dfsRun_no_fuel_error hwf fuel s hp,
+   fun hwf g => traverse_no_fuel_error hwf g⟩
+
+/-- **writer_traversal_exact** (all components): for every well-formed molecule and every successful run of `smilesRounds`,
+    each round is one DFS run on the atoms not yet written (`RoundsDfs`), `smiles_atoms_order` is the concatenation of the
+    rounds' discovery orders and a permutation of the atoms (every atom once, in exactly one component), and over all
+    rounds every bond of the molecule is recorded exactly once, as a tree bond or as one closure record pair. -/
+theorem writer_traversal_exact (m : Mol) (env : Env) (opts : Opts) (rs : List Round) (order : List Nat)
+    (hwf : m.WF = true) (h : smilesRounds m env opts = .ok (rs, order)) :
+    RoundsDfs m m.ids 0 rs ∧ order = rs.flatMap (·.visited) ∧ order.Perm m.ids ∧
+    GFacts m order (rs.flatMap fun r => treeP r.edges) (rs.flatMap fun r => cycT r.tokens) ∧
+    (∀ a b, a ∈ m.ids → (b ∈ nk m a ↔ ((a, b) ∈ (rs.flatMap fun r => treeP r.edges) ∨
+        (b, a) ∈ (rs.flatMap fun r => treeP r.edges) ∨ ∃ k, (a, b, k) ∈ (rs.flatMap fun r => cycT r.tokens)))) := by
+  obtain ⟨hD, hord⟩ := smilesRounds_dfs hwf h
+  obtain ⟨G, M, _, _⟩ := roundsDfs_gfacts hwf rs m.ids 0 hD
+  have hsym : ∀ a b, b ∈ nk m a → a ∈ nk m b := fun a b hb => ((wf_nbrs hwf a).2 b hb).2.2
+  refine ⟨hD, hord, (writer_constitution m env opts rs order hwf h).1, hord ▸ G, ?_⟩
+  intro a b ha
+  exact G.mem_bond_iff hsym a b ((M a).2 ha)
+
+/-- **writer_structure_holds**: the three structural facts that `writer_text_is_readable` / `read_write_bonds_of_structure`
+    assume (and the driver used to certify run by run) hold for EVERY successful run on a well-formed molecule. -/
+theorem writer_structure_holds (m : Mol) (env : Env) (opts : Opts) (rs : List Round) (order : List Nat)
+    (hwf : m.WF = true) (h : smilesRounds m env opts = .ok (rs, order)) :
+    cyclesWF [] [] (rs.flatMap roundCycles) = true ∧
+    (rs.flatMap fun r => closureAtoms r.smi r.tokens).Nodup ∧
+    (pairAll [] (rs.flatMap cycleEvents)).1 = [] := by
+  obtain ⟨hD, _⟩ := smilesRounds_dfs hwf h
+  obtain ⟨hs, _⟩ := smilesRounds_spec m env opts rs order h
+  obtain ⟨G, _, _, _⟩ := roundsDfs_gfacts hwf rs m.ids 0 hD
+  obtain ⟨h1, h2, h3⟩ := roundsDfs_structure (opts := opts) hwf rs m.ids 0 hD hs
+  exact ⟨h1, h2, closure_all_closed G _ h3⟩
+
+/-- FULL statement of the constitution round trip including bond symbols: the symbols read at each bond are the ones
+    `_format_bond` assigns (`tokensDenoteMol`).  The atoms/bonds part is `read_write_constitution` below; the symbol part
+    (and stereo marks) stays on the per-run judge. -/
+def ReadWriteConstitutionFull : Prop := ReadWriteBondsFull
+
+/-- **read_write_constitution** (`_partial` of `ReadWriteBondsFull`: everything except bond symbols and stereo marks;
+    no per-run hypothesis): for EVERY well-formed molecule (any number of components), every style, weights, set
+    orders, draws — whenever the writer returns tokens, the SMILES connection semantics `readToks` reads them without
+    error, the atom tokens are exactly the atoms of the molecule, each once, in `smiles_atoms_order`, and the bonds
+    read back are exactly the bonds of the molecule: no bond twice (as an unordered pair), none missing, none invented. -/
+theorem read_write_constitution (m : Mol) (env : Env) (opts : Opts) (rs : List Round) (order : List Nat)
+    (hwf : m.WF = true) (h : smilesRounds m env opts = .ok (rs, order)) :
+    order.Perm m.ids ∧ wAtoms (joinRounds rs) = order ∧
+    ∃ es, readToks (joinRounds rs) = .ok es ∧
+      (es.map fun e => undirected e.a e.b).Nodup ∧
+      ∀ a b, (∃ e ∈ es, undirected e.a e.b = undirected a b) ↔ b ∈ nk m a :=
+  writer_constitution m env opts rs order hwf h
+
+/-- **constitution_injective** (collision clause without any per-run hypothesis): if two well-formed molecules — written
+    with any styles, orderings, weights — receive the same token list, they have the same atoms and the same bonds.
+    Contrapositive: molecules that differ in an atom id or in the presence of a bond never get the same tokens. -/
+theorem constitution_injective (m₁ m₂ : Mol) (env₁ env₂ : Env) (o₁ o₂ : Opts) (rs₁ rs₂ : List Round) (ord₁ ord₂ : List Nat)
+    (w₁ : m₁.WF = true) (w₂ : m₂.WF = true)
+    (h₁ : smilesRounds m₁ env₁ o₁ = .ok (rs₁, ord₁)) (h₂ : smilesRounds m₂ env₂ o₂ = .ok (rs₂, ord₂))
+    (heq : joinRounds rs₁ = joinRounds rs₂) :
+    m₁.ids.Perm m₂.ids ∧ ord₁ = ord₂ ∧ ∀ a b, b ∈ nk m₁ a ↔ b ∈ nk m₂ a := by
+  obtain ⟨p1, a1, es1, r1, _, b1⟩ := writer_constitution m₁ env₁ o₁ rs₁ ord₁ w₁ h₁
+  obtain ⟨p2, a2, es2, r2, _, b2⟩ := writer_constitution m₂ env₂ o₂ rs₂ ord₂ w₂ h₂
+  have ho : ord₁ = ord₂ := by rw [← a1, ← a2, heq]
+  rw [heq, r2] at r1
+  cases r1
+  refine ⟨(p1.symm.trans (ho ▸ List.Perm.refl _)).trans p2, ho, fun a b => (b1 a b).symm.trans (b2 a b)⟩
+
+/-- the hypotheses are satisfiable by non-trivial molecules: bicyclo[1.1.0]butane (two ring closures on one atom) and a
+    two-component molecule (ring + chain: cyclopropane and ethane, ids interleaved) are well formed and are written -/
+def twoComp : Mol :=
+  ⟨[(1, { z := 6, implH := some 2 }), (2, { z := 6, implH := some 3 }), (3, { z := 6, implH := some 2 }),
+    (4, { z := 6, implH := some 3 }), (5, { z := 6, implH := some 2 })],
+   [(1, [(3, { order := 1 }), (5, { order := 1 })]), (2, [(4, { order := 1 })]),
+    (3, [(1, { order := 1 }), (5, { order := 1 })]), (4, [(2, { order := 1 })]),
+    (5, [(1, { order := 1 }), (3, { order := 1 })])]⟩
+def twoCompEnv : Env :=
+  { weights := [(1, 2), (2, 1), (3, 2), (4, 1), (5, 2)], setOrders := [[1, 2, 3, 4, 5], [2, 4]],
+    front := [], draws := [] }
+example : bicycloButane.WF = true ∧ twoComp.WF = true ∧
+    (match smilesRounds bicycloButane bicycloEnv {} with | .ok (rs, _) => rs.length == 1 | .error _ => false) = true ∧
+    (match smilesRounds twoComp twoCompEnv {} with
+     | .ok (rs, order) => rs.length == 2 && order.length == 5 &&
+         (match readToks (joinRounds rs) with | .ok es => es.length == 4 | .error _ => false)
+     | .error _ => false) = true := by
+  decide +kernel
+
 
 /-! ## 6. injectivity from losslessness -/
 
